@@ -150,6 +150,8 @@ package olareg
 //@   ensures [status-class] w.status == 201 || w.status == 400 || w.status == 403 || w.status == 413 || w.status == 500
 //@   ensures [no-5xx-without-fault] w.status >= 500 ==> fault()
 //@   ensures [refuse-clean]{C04} 400 <= w.status && w.status < 500 ==> mutations() == old(mutations())
+//@   -- the referrers switch gates every effect of a subject field (C19): with the API off no response is built or stored
+//@   assert [referrers-off-means-no-response]{C19} before "s.referrerAdd(": *s.conf.API.Referrer.Enabled
 //@   ensures [read-only-refused]{C14} old(*s.conf.Storage.ReadOnly) ==> w.status == 403 && mutations() == old(mutations())
 //@   assert [ack-after-durable]{C09} before "WriteHeader(http.StatusCreated)": blobReady()
 //@   assert [stored-is-whole-body]{C02} before "WriteHeader(http.StatusCreated)": !truncated()
@@ -247,6 +249,10 @@ package olareg
 //@   ensures [timers] forall t: *time.Timer :: allocated(t) && t != old(s.referrerCache.timer) ==> (t.armed <==> old(t.armed))
 //@   -- a filtered answer announces the filter, whichever path produced the bytes (fresh, or a page from the cache)
 //@   assert [filter-announced]{C07} before "w.Write(": filterAT != "" ==> header(w, "OCI-Filters-Applied") == "artifactType"
+//@   -- pages are cached per (response digest, artifactType filter): every look-up and every store uses the filter of the request
+//@   -- at hand, otherwise a follow-up page of a filtered listing is served from the unfiltered split (C07: exactly the matching referrers)
+//@   assert [page-cache-key-carries-filter]{C07} before "s.referrerCache.Get(": arg1.artifactType == filterAT
+//@   assert [page-cache-key-carries-filter-set]{C07} before "s.referrerCache.Set(": arg1.artifactType == filterAT
 
 //@ -- the repository grammar has no empty, "." or ".." elements and no leading separator (every element starts and ends
 //@ -- with [a-z0-9]): a name that matches is a relative path that cannot climb (C16)
